@@ -260,6 +260,18 @@ class Program:
         if isinstance(node, (ast.Tuple, ast.List)):
             vals = [ce(e) for e in node.elts]
             return tuple(vals) if isinstance(node, ast.Tuple) else vals
+        if isinstance(node, ast.Dict):
+            if any(k is None for k in node.keys):
+                raise NotConst("dict splat")
+            try:
+                return {ce(k): ce(v) for k, v in zip(node.keys, node.values)}
+            except TypeError as e:
+                raise NotConst(str(e))
+        if isinstance(node, ast.Set):
+            try:
+                return frozenset(ce(e) for e in node.elts)
+            except TypeError as e:
+                raise NotConst(str(e))
         if isinstance(node, ast.Call):
             fn = node.func
             args = [ce(a) for a in node.args]
